@@ -370,7 +370,10 @@ def ledger(step):
             a = it.split(':')
             if len(a) != 3:
                 return None
-            d[int(a[0])] = (int(a[1]), int(a[2]))
+            try:
+                d[int(a[0])] = (int(a[1]), int(a[2]))
+            except ValueError:
+                return None             # a transcript cut short by a crash in the middle of a step
     return d
 
 
@@ -383,6 +386,10 @@ def oracle(case, impl, spec):
         return None
     if ';BAD' in spec:
         return None                      # not a well-formed history (use after delete, …)
+    mcr = re.search(r'\| (CRASH\(\d+\)|TIMEOUT|EXIT\(\d+\))\s*$', impl)
+    if mcr:
+        return ('the library did not survive this well-formed history: %s '
+                '(a destructor run twice or memory released twice is the usual cause)' % mcr.group(1))
     evtoks = [t for t in model_ops(case)[1] if t[0] != 'u']
     nev = len(evtoks)
     si, ss = steps(impl), spec.split(' ;;')[0].split(' | ') if nev else []
